@@ -56,15 +56,32 @@ def run_shard_file(path: str) -> int:
     spec = json.load(open(path))
     out = Path(spec["_out"])
     try:
+        from . import reach
+
+        reach_on = os.environ.get("FV_REACH", "1") != "0" and \
+            reach.start(str(env.REPO / "src"))
         env.bootstrap(need_contracts=True)
         m = mod_for(spec["_prop"])
         t0 = time.time()
         res = m.run_shard(spec)
         res["wall_s"] = time.time() - t0
+        if reach_on:
+            res["reach"] = reach.snapshot()
     except Exception:
         res = {"error": traceback.format_exc()}
     dump(res, out)
     return 0
+
+
+def anchor_files(prop: str) -> list[str]:
+    try:
+        for line in open(VERIF / "properties.jsonl"):
+            d = json.loads(line)
+            if d.get("id") == prop:
+                return list(d.get("anchors", {}).get("files", []))
+    except Exception:
+        pass
+    return []
 
 
 def load_known() -> list[dict]:
@@ -137,7 +154,10 @@ def main(argv=None) -> int:
     errors = []
     timeouts = 0
     extra: dict = {}
+    reached: dict[str, set[int]] = {}
     for r in results:
+        for fn, ls in (r.get("reach") or {}).items():
+            reached.setdefault(fn, set()).update(ls)
         if r.get("timeout"):
             timeouts += 1
             continue
@@ -235,6 +255,11 @@ def main(argv=None) -> int:
             "verdict": {0: "held", 1: "violated", 2: "inconclusive"}[rc],
         }
         cov.update(extra)
+        if reached:
+            from . import reach
+
+            cov["reach_of_anchor_files"] = reach.report(str(env.REPO / "src"), reached,
+                                                        anchor_files(prop))
         ev = {
             "property_id": prop,
             "tier": tier,
